@@ -18,7 +18,7 @@ pub fn mapping_info(m: &M) -> MappingInfo {
 /// sorted, disjoint layout; kernel extent = a prefix of the mapping extent (as aggregation produces)
 pub fn gen_layout(rng: &mut Rng) -> Vec<M> {
     let n = match rng.below(6) { 0 => 0, 1 => 1, _ => rng.below(40) } as usize;
-    let mut addr: u64 = *rng.pick(&[0x1000u64, 0x10000, 0x5555_5000_0000, 0x7f00_0000_0000, 0xffff_f000, 0x1_0000_0000 - 0x200000]);
+    let mut addr: u64 = *rng.pick(&[0x1000u64, 0x10000, 0x5555_5000_0000, 0x7f00_0000_0000, 0xffff_f000, 0x1_0000_0000 - 0x200000, 0x0080_0000_0000_0000]);
     let mut v = Vec::new();
     for _ in 0..n {
         addr += match rng.below(5) { 0 => 0, 1 => 0x1000, 2 => 0x200000 * rng.below(3), 3 => rng.below(1 << 34) & !0xfff, _ => 0x1000 * rng.below(64) };
@@ -29,6 +29,8 @@ pub fn gen_layout(rng: &mut Rng) -> Vec<M> {
         addr += size;
         if addr > (1u64 << 47) { break; }
     }
+    // the legacy [vsyscall] page, as /proc/<pid>/maps lists it on x86-64: an executable mapping in the upper half of the address space
+    if rng.chance(1, 3) && v.last().map(|m| m.start + m.size <= 0xffff_ffff_ff60_0000).unwrap_or(true) { v.push(M { start: 0xffff_ffff_ff60_0000, size: 0x1000, sys_start: 0xffff_ffff_ff60_0000, sys_end: 0xffff_ffff_ff60_1000, exec: true, readable: false }); }
     if v.len() > 1 && rng.chance(1, 3) { let k = rng.below(v.len() as u64) as usize; v.swap(0, k); } // entry-point swap
     v
 }
